@@ -493,6 +493,8 @@ class Exec:
         return env
 
     def inline(self, fi: FuncInfo, allargs, kwargs):
+        if getattr(fi, "unmodelled_decorators", None):
+            raise OutOfSubset(f"{fi.qualname} is wrapped by decorator(s) {fi.unmodelled_decorators} that the extraction does not interpret")
         if len(self.frames) >= MAX_INLINE_DEPTH:
             raise OutOfSubset(f"inline depth exceeded at {fi.qualname}")
         if any(f.func is fi for f in self.frames):
